@@ -119,6 +119,14 @@ func (c *Catalog) tagsFromTagsDirective(d *directive.Directive) ([]*Tag, *jerr.J
 	return tt, nil
 }
 
+// CheckTagsDirective checks the Tags directive itself (annotation, parameters,
+// existence of the tags). It's necessary for the Tags directive of a URL whose
+// methods all have their own Tags: nobody else looks at such a directive.
+func (c *Catalog) CheckTagsDirective(d *directive.Directive) *jerr.JApiError {
+	_, je := c.tagsFromTagsDirective(d)
+	return je
+}
+
 func checkTagsDirective(d *directive.Directive) *jerr.JApiError {
 	if d.Annotation != "" {
 		return d.KeywordError(jerr.AnnotationIsForbiddenForTheDirective)
